@@ -421,7 +421,7 @@ func runTA(c *load.Ctx, r *report.RuleResult) {
 
 func init() {
 	register(&Rule{ID: "T9", Min: 20, Run: runT9,
-		Doc: "false-valued rules are inert: the compiler's false-rule filter removes exactly nullable:false and const:false and keeps every other rule (including optional:false) whatever its value; Const.Validate accepts everything when its flag is false and exactly the example text when it is true"})
+		Doc: "false-valued rules are inert: the compiler's false-rule filter removes exactly nullable:false and const:false and keeps every other rule (including optional:false) whatever its value; Const.Validate accepts everything when its flag is false and, when it is true, exactly the values equal to the example as JSON values: two quoted strings are compared decoded (so \"a\\/b\" equals \"a/b\"), two numerals by exact value (1.50 equals 1.5), anything else by text"})
 }
 
 func runT9(c *load.Ctx, r *report.RuleResult) {
@@ -526,35 +526,129 @@ func runT9(c *load.Ctx, r *report.RuleResult) {
 			r.OK(key, pos, fmt.Sprintf("%d valuations", counts[key]))
 		}
 	}
-	// Const.Validate
+	// Const.Validate: equality with the example is equality of JSON values — strings decoded,
+	// numbers by value, the remaining scalars by their text.
 	cfn := c.Func(pkgConstraint, "Const.Validate")
 	cnamed := namedType(c, pkgConstraint, "Const")
 	if cfn == nil || cnamed == nil {
 		r.Unk("anchor|constraint.Const.Validate", "", "not found")
 		return
 	}
+	short := func(v pe.Value) string {
+		s := strings.Trim(pe.Show(v), "‹›")
+		if strings.Contains(s, "nodeValue") {
+			return "example"
+		}
+		return s
+	}
+	if f := c.Func(pkgBytes, "Bytes.InQuotes"); f != nil {
+		e.cfg.Intrinsics[f.String()] = func(in *pe.Interp, args []pe.Value) (pe.Value, bool) {
+			return in.Choose("quoted("+short(args[0])+")", []string{"false", "true"}) == 1, true
+		}
+	}
+	if f := c.Func(pkgBytes, "Bytes.Unquote"); f != nil {
+		rt := f.Signature.Results().At(0).Type()
+		e.cfg.Intrinsics[f.String()] = func(in *pe.Interp, args []pe.Value) (pe.Value, bool) {
+			return pe.NewSym("decoded("+short(args[0])+")", rt), true
+		}
+	}
+	if f := c.Func(pkgBytes, "Bytes.String"); f != nil {
+		e.cfg.Intrinsics[f.String()] = func(in *pe.Interp, args []pe.Value) (pe.Value, bool) {
+			return pe.NewSym(short(args[0]), types.Typ[types.String]), true
+		}
+	}
+	if f := c.Func(pkgJSON, "NewNumber"); f != nil {
+		numPtr := f.Signature.Results().At(0).Type()
+		e.cfg.Intrinsics[f.String()] = func(in *pe.Interp, args []pe.Value) (pe.Value, bool) {
+			n := short(args[0])
+			if in.Choose("number("+n+")", []string{"no", "yes"}) == 0 {
+				ev, ok := e.cfg.Intrinsics["errors.New"]
+				if !ok {
+					in.Undecided("no model of a non-nil error")
+				}
+				errV, _ := ev(in, []pe.Value{"not a number"})
+				return &pe.Tuple{E: []pe.Value{pe.NilV{}, errV}}, true
+			}
+			return &pe.Tuple{E: []pe.Value{pe.NewSym("number("+n+")", numPtr), pe.NilV{}}}, true
+		}
+	}
+	constSeen := 0
 	for _, o := range pe.ExploreFn(e.cfg, func(in *pe.Interp) pe.Value {
 		return in.Call(cfn, []pe.Value{pe.NewSym("c", cnamed), pe.NewSym("value", cfn.Params[1].Type())})
 	}) {
 		val := o.ChoiceMap()
-		eq, asked := "", false
+		get := func(prefix string, parts ...string) (string, bool) {
+			for n, l := range val {
+				if !strings.HasPrefix(n, prefix) {
+					continue
+				}
+				all := true
+				for _, p := range parts {
+					if !strings.Contains(n, p) {
+						all = false
+					}
+				}
+				if all {
+					return l, true
+				}
+			}
+			return "", false
+		}
+		qv, _ := get("quoted(value)")
+		qe, _ := get("quoted(example)")
+		nv, _ := get("number(value)")
+		ne, _ := get("number(example)")
+		if (qv == "true" && nv == "yes") || (qe == "true" && ne == "yes") {
+			continue // a quoted token is not a numeral
+		}
+		deq, deqAsked := get("eq(", "decoded(value)", "decoded(example)")
+		ord, ordAsked := get("ord(", "number(value)", "number(example)")
+		raw, rawAsked := "", false
 		for n, l := range val {
-			if strings.HasPrefix(n, "eq(") {
-				eq, asked = l, true
+			if strings.HasPrefix(n, "eq(") && !strings.Contains(n, "decoded(") && strings.Contains(n, "value") && strings.Contains(n, "example") {
+				raw, rawAsked = l, true
 			}
 		}
-		key := fmt.Sprintf("const|apply=%s|equal=%s", val["c.apply"], orDash(eq, asked))
+		kind := "other"
+		switch {
+		case qv == "true" && qe == "true":
+			kind = "strings"
+		case nv == "yes" && ne == "yes":
+			kind = "numbers"
+		}
+		key := fmt.Sprintf("const|apply=%s|%s|quoted=%s,%s|numeral=%s,%s|decoded-equal=%s|value-order=%s|text-equal=%s", val["c.apply"], kind, orDash(qv, qv != ""), orDash(qe, qe != ""), orDash(nv, nv != ""), orDash(ne, ne != ""), orDash(deq, deqAsked), orDash(ord, ordAsked), orDash(raw, rawAsked))
 		v, code := verdictOf(o)
 		if v == "undecided" || v == "crash" {
 			r.Unk(key, c.Pos(cfn.Pos()), v+": "+code)
 			continue
 		}
+		constSeen++
 		var want string
 		switch {
 		case val["c.apply"] == "false":
 			want = "accept"
-		case val["c.apply"] == "true" && asked:
-			want = map[string]string{"true": "accept", "false": "reject"}[eq]
+		case val["c.apply"] != "true":
+			r.Bad(key, c.Pos(cfn.Pos()), "the verdict does not depend on the rule's flag: "+o.Exit())
+			continue
+		case kind == "strings" && deqAsked:
+			want = map[string]string{"true": "accept", "false": "reject"}[deq]
+		case kind == "strings":
+			r.Bad(key, c.Pos(cfn.Pos()), "two quoted strings are not compared in decoded form (\"a\\/b\" must equal \"a/b\"): "+o.Exit())
+			continue
+		case kind == "numbers" && ordAsked:
+			want = map[bool]string{true: "accept", false: "reject"}[ord == "="]
+		case kind == "numbers":
+			r.Bad(key, c.Pos(cfn.Pos()), "two numerals are not compared by value (1.50 must equal 1.5): "+o.Exit())
+			continue
+		case rawAsked:
+			// the text decides only once the path knows the two are not both strings and not both numerals
+			notBothStrings := qv == "false" || qe == "false"
+			notBothNumbers := nv == "no" || ne == "no" || qv == "true" || qe == "true"
+			if !notBothStrings || !notBothNumbers {
+				r.Bad(key, c.Pos(cfn.Pos()), "the value is compared with the example by its raw text without first telling strings (compared decoded: \"a\\/b\" equals \"a/b\") and numerals (compared by value: 1.50 equals 1.5) apart: "+o.Exit())
+				continue
+			}
+			want = map[string]string{"true": "accept", "false": "reject"}[raw]
 		default:
 			r.Bad(key, c.Pos(cfn.Pos()), "const:true does not compare the value with the example: "+o.Exit())
 			continue
@@ -564,6 +658,9 @@ func runT9(c *load.Ctx, r *report.RuleResult) {
 		} else {
 			r.OK(key, c.Pos(cfn.Pos()), v)
 		}
+	}
+	if constSeen == 0 {
+		r.Unk("anchor|Const.Validate paths", c.Pos(cfn.Pos()), "no decided path")
 	}
 }
 
